@@ -17,6 +17,7 @@ Proof.
   destruct o; cbn [step_x step]; try reflexivity.
   - destruct (entry_of f st sf last); reflexivity.
   - destruct (saved s); reflexivity.
+  - destruct (saved s); reflexivity.
 Qed.
 
 Lemma exec_x_exec (p : list op) : forall s, exec_x behx s p = exec behx s p.
